@@ -5,6 +5,7 @@
 #include <stddef.h>
 #include <stdbool.h>
 #include <sys/types.h>
+#include <limits.h>
 
 /* vacuity guard: must be reported as FAILURE in every group (pipeline.py) */
 #define VERIF_REACH() __CPROVER_assert(0, "VERIF_REACH")
